@@ -116,8 +116,9 @@ def clause_sqlite(prog, rep, sch, sites):
             return True
         if st.kind == "INSERT":
             return any(c in GROUP_COLS for c in st.columns) and (not need_name or "snapshot_name" in st.columns)
-        g = any(c in GROUP_COLS and o == "=" for c, o, r in st.where)
-        n = (not need_name) or any(c == "snapshot_name" and o in ("=", "!=") for c, o, r in st.where)
+        # a qualified column (`s.mls_group_id`, statements with a join) is the same column
+        g = any(c.split(".")[-1] in GROUP_COLS and o == "=" for c, o, r in st.where)
+        n = (not need_name) or any(c.split(".")[-1] == "snapshot_name" and o in ("=", "!=") for c, o, r in st.where)
         return g and n
     for label, ss in (("snapshot", snap_s), ("rollback", rest_s), ("release", rel_s), ("list", list_s)):
         rep.floor("sql-scope", "%s statements" % label, len(ss), 1)
@@ -127,6 +128,21 @@ def clause_sqlite(prog, rep, sch, sites):
                       "statement is scoped to the group%s" % (" and snapshot name" if need_name else ""),
                       "statement `%s` is not scoped to the group id%s: it touches other groups' rows" % (s.stmt.text[:90], " and snapshot name" if need_name else ""),
                       s.loc())
+    # 3b. the snapshot copies *every* row of the group: restore deletes all of the group's rows of a table before re-inserting the
+    # copied ones, so a copy restricted by anything but the group key (`AND epoch >= ..`) loses the rows it left out on every rollback
+    m = 0
+    for s in snap_s:
+        if s.stmt.kind != "SELECT" or s.stmt.table == SNAP:
+            continue
+        m += 1
+        extra = [(c, o, r) for c, o, r in s.stmt.where if not (c.split(".")[-1] in GROUP_COLS and o == "=")]
+        joined = re.search(r"\bJOIN\b", s.stmt.text, flags=re.I) is not None
+        rep.check(not extra and not joined, "sql-scope", "snapshot/SELECT %s/copies-every-row" % s.stmt.table,
+                  "the copy of %s is restricted by the group key only" % s.stmt.table,
+                  "the snapshot copies only the rows of %s satisfying %s%s, while the restore deletes all of the group's rows of that table before "
+                  "re-inserting the copy: the rows left out are destroyed by a rollback"
+                  % (s.stmt.table, ["%s %s %s" % x for x in extra], " (restricted by a join)" if joined else ""), s.loc())
+    rep.floor("sql-scope", "snapshot copy statements over live tables", m, 5)
     for s in prune_s:
         ok = s.stmt.kind == "DELETE" and s.stmt.table == SNAP and [(c, o) for c, o, r in s.stmt.where] == [("created_at", "<")]
         rep.check(ok, "sql-scope", "prune/%s %s" % (s.stmt.kind, s.stmt.table), "prune deletes snapshot rows older than the threshold only",
@@ -234,6 +250,48 @@ def fields_touched(prog, f, adt):
     return out
 
 
+
+def clause_index_leaves_with_record(prog, rep, rule):
+    # ... and it is removed *with* the record: wherever a record leaves the primary map, the index entry keyed by that record's
+    # nostr_group_id is removed in the same function, the key being read from the map no later than the removal itself (a helper that
+    # peeks after the record is gone finds nothing to clean up, and the undone id keeps routing to the group)
+    def recv_is(g, c, field):
+        if not c.args or "p" not in c.args[0]:
+            return False
+        if ("." + field) in [e for e in c.args[0]["p"][1:] if isinstance(e, str)]:
+            return True
+        dep, _, _ = g.depends_on(c.args[0]["p"][0])
+        for l in dep:
+            for bb, kind, x in g.defs().get(l, []):
+                if kind == "stmt":
+                    for o in x.get("o", []):
+                        if "p" in o and ("." + field) in [e for e in o["p"][1:] if isinstance(e, str)]:
+                            return True
+        return False
+    nrm = 0
+    for g in prog.nontest_fns(("mdk_memory_storage",)):
+        prim = [c for c in g.live_calls() if c.name in ("pop", "pop_entry", "remove") and recv_is(g, c, "groups_cache")]
+        if not prim:
+            continue
+        idx = [c for c in g.live_calls() if c.name in ("pop", "pop_entry", "remove") and recv_is(g, c, "groups_by_nostr_id_cache")]
+        for pc in prim:
+            nrm += 1
+            ok = False
+            for ic in idx:
+                if len(ic.args) < 2 or "p" not in ic.args[1]:
+                    continue
+                og = A.origins(prog, g, ic.args[1]["p"][0], scope=None, max_frames=0)
+                for x in og.calls:
+                    if x.name in ("peek", "get", "pop", "peek_mut", "get_mut", "remove", "pop_entry") and recv_is(g, x, "groups_cache"):
+                        if x is pc or (x.bb == pc.bb) or g.dominates(x.bb, pc.bb):
+                            ok = True
+            rep.check(ok, rule, "%s/index-entry-leaves-with-record" % prog.fns.get(g.root, g).label(),
+                      "the record removed from the primary map takes its routing-index entry (keyed by its own nostr_group_id, read before the removal) with it",
+                      "a group record is removed from groups_cache without removing the routing-index entry keyed by that record's nostr_group_id "
+                      "(read from the map no later than the removal): the stale id keeps resolving to a copy of the record", pc.loc())
+    rep.floor(rule, "removals from the primary group map (memory backend)", nrm, 1)
+
+
 def clause_memory(prog, rep):
     inner = prog.adt("MdkMemoryStorageInner")
     snap = prog.adt("GroupScopedSnapshot")
@@ -302,6 +360,7 @@ def clause_memory(prog, rep):
                       "restore removes the routing-index entry under a key that is not the live record's nostr_group_id (e.g. the snapshot's): after "
                       "a rollback across an id rotation the undone id still routes to the group", c.loc())
     rep.floor("memory-scope", "routing-index removals in restore", npop, 1)
+    clause_index_leaves_with_record(prog, rep, "memory-scope")
     # every filter closure compares against the captured group id
     nclos = 0
     for g in rb_ext + cr_ext:
